@@ -63,6 +63,38 @@ def reference(entry, env):
     return ('val', wrap(val))
 
 
+def evaluation_depth_vs_line_guard(P, rep):
+    """Every expression the line parser lets through evaluates: the evaluator's nesting limit must not be below the number of operators
+    the guard in front of the parser admits in one operand (a chain a+b+c+... is a tree with one level per operator)."""
+    import mirutil as MU
+    import rules_C16
+    ev = None
+    for k in sorted(P.reachable(["expr::Expr::run"])):
+        if not k.startswith("expr::"):
+            continue
+        b = P.body[k]
+        ch = MU.Chaser(b)
+        for bl in b["blocks"]:
+            for st in bl["stmts"]:
+                if st["k"] == "assign" and st["rv"]["k"] == "bin" and st["rv"]["op"] in ("Gt", "Ge") and "const" in st["rv"]["r"] and "int" in st["rv"]["r"]["const"]:
+                    r = ch.root(st["rv"]["l"], through_calls=False)
+                    if r[0] is not None and 1 <= r[0] <= b["arg_count"] and b["locals"][r[0]].get("name") == "depth":
+                        ev = int(st["rv"]["r"]["const"]["int"])
+    ops = None
+    for gk in rules_C16.nesting_guards(P):
+        b = P.body[gk]
+        for bl in b["blocks"]:
+            for st in bl["stmts"]:
+                if st["k"] == "assign" and st["rv"]["k"] == "bin" and st["rv"]["op"] in ("Gt", "Ge") and "const" in st["rv"]["r"] and "int" in st["rv"]["r"]["const"]:
+                    ops = max(ops or 0, int(st["rv"]["r"]["const"]["int"]))
+    if ev is None or ops is None:
+        rep.unprovable("C05.limits|chain-vs-evaluation-depth", "limits not found (evaluation depth %s, operators per operand %s)" % (ev, ops))
+        return
+    rep.ob("C05.limits|chain-vs-evaluation-depth", ops <= ev,
+           "what the line guard admits (%d operators in one operand) the evaluator can walk (nesting limit %d)" % (ops, ev) if ops <= ev else
+           "the line guard admits %d operators in one operand, the evaluator gives up beyond a nesting of %d: a flat sum of 130 terms, or an enumeration `.equ ID_n = ID_(n-1) + 1` 65 links long, parses and then fails with `expression nested too deeply (definition that refers to itself?)`" % (ops, ev))
+
+
 def run(tier):
     rep = Reporter("C05", tier, "proof", "operator-table agreement: precedence table read from the PEG grammar; evaluator table extracted by abstract interpretation of Expr::run; bit provenance for the byte/word functions")
     rep.explanation = ("The expression language is a finite table implemented twice. The grammar side (levels, fixity, associativity, "
@@ -86,6 +118,9 @@ def run(tier):
     import layout_match
     layout_match.use_conditions(P)
     layout_match.identifier_operands(g, rep, "C05.operand", shapes=("bare", "negated", "in-sum", "directive", "negated-directive"), floor=70)
+    evaluation_depth_vs_line_guard(P, rep)
+    import rules_C02
+    rules_C02.byte_operand_dropped(P, rep, "C05.errors|byte-operand", "the expression is never evaluated, so `.byte 1/0` or `.byte 1<<64` builds instead of failing, and `.byte 2*4` reserves nothing")
     return rep
 
 
